@@ -291,7 +291,9 @@ struct Spec
                     }
                     else if (e.present)
                     {
-                        losetag[k] = P(5) | P(3) | (e.rej ? P(9) : 0);
+                        // time passing is the only thing that happened: a live entry that disappears now
+                        // expired early (C05); retention across operations is C03's
+                        losetag[k] = P(5) | (e.rej ? P(9) : 0);
                         rejtag[k]  = e.rej;
                     }
                 }
@@ -337,7 +339,15 @@ struct Spec
                     else
                     {
                         if (ok)
+                        {
+                            // C09's deviation.  The call *reported* a successful write, so for every other
+                            // property that write took place (C01: "most recent successful insert").
                             V(P(9), "allow::insert on a live key reported success");
+                            write_upd(k, w, dl);
+                            after_write_expect(k);
+                            losetag[k] = P(9) | P(5);
+                            break;
+                        }
                         losetag[k] |= P(9);
                         if (kn.track_rej && !ok && op.k == OpK::Insert && kn.depth < 64)
                         {
@@ -492,7 +502,13 @@ struct Spec
                         else
                         {
                             if (ok)
+                            {
                                 V(P(9), "allow::update reported success for a key with no entry");
+                                write_new(k, w, dl); // reported as written: adopted for the other properties
+                                after_write_expect(k);
+                                losetag[k] = P(9) | P(5);
+                                break;
+                            }
                             phantag[k] = P(9) | P(1);
                         }
                     }
